@@ -90,6 +90,15 @@ def random_doc(rng, max_nodes=40, anim_styles=False, space=False, ruby=True, rub
     return 2 * rng.randrange(0, span + 1) if den <= 3 or rng.random() < 0.5 else 2 * den * rng.randrange(0, 10)
 
   nr = rng.choice([0, 0, 1, 2, 3])
+  # shape of the tree: mostly small fan-out; some documents are WIDE (dozens of siblings), DEEP (long span chains) or have
+  # many regions - sizes that a bounded enumeration never reaches
+  shape = rng.random()
+  wide = shape < 0.06
+  deep = 0.06 <= shape < 0.10
+  if 0.10 <= shape < 0.13:
+    nr = rng.randint(5, 9)
+  if wide or deep:
+    max_nodes = max(max_nodes, 140)
   kind, parent, b, e, reg, disp, anim, txt = [], [], [], [], [], [], [], []
   spc = []
 
@@ -120,11 +129,11 @@ def random_doc(rng, max_nodes=40, anim_styles=False, space=False, ruby=True, rub
     if len(kind) >= max_nodes:
       return
     if pk == "body":
-      for _ in range(rng.randint(1, 3)):
+      for _ in range(rng.randint(1, 3) if not wide else rng.randint(1, 12)):
         k = add("div", p)
         grow(k, "div", depth + 1)
     elif pk == "div":
-      for _ in range(rng.randint(1, 3)):
+      for _ in range(rng.randint(1, 3) if not wide else rng.randint(1, 25)):
         if len(kind) >= max_nodes:
           return
         if depth < 4 and rng.random() < 0.25:
@@ -134,7 +143,7 @@ def random_doc(rng, max_nodes=40, anim_styles=False, space=False, ruby=True, rub
           k = add("p", p)
           grow(k, "p", depth + 1)
     elif pk == "p":
-      for _ in range(rng.randint(1, 4)):
+      for _ in range(rng.randint(1, 4) if not wide else rng.randint(1, 30)):
         if len(kind) >= max_nodes:
           return
         r = rng.random()
@@ -196,11 +205,14 @@ def random_doc(rng, max_nodes=40, anim_styles=False, space=False, ruby=True, rub
           k = add("span", p)
           grow(k, "span", depth + 1)
     elif pk == "span":
-      for _ in range(rng.randint(1, 3)):
+      for _ in range(rng.randint(1, 3) if not wide else rng.randint(1, 20)):
         if len(kind) >= max_nodes:
           return
         r = rng.random()
-        if r < 0.6:
+        if deep and depth < 40 and r < 0.8:
+          k = add("span", p)
+          grow(k, "span", depth + 1)
+        elif r < 0.6:
           add("text", p)
         elif r < 0.72:
           add("br", p)
